@@ -1695,6 +1695,10 @@ func unmarshalList(info TypeInfo, data []byte, value interface{}) error {
 			return err
 		}
 		data = data[p:]
+		if k != reflect.Array && n > len(data)/p {
+			// every element takes at least p bytes: do not allocate what the value can not hold
+			return unmarshalErrorf("unmarshal list: unexpected eof")
+		}
 		if k == reflect.Array {
 			if rv.Len() != n {
 				return unmarshalErrorf("unmarshal list: array with wrong size")
@@ -1817,6 +1821,10 @@ func unmarshalMap(info TypeInfo, data []byte, value interface{}) error {
 	}
 	if n < 0 {
 		return unmarshalErrorf("negative map size %d", n)
+	}
+	if n > (len(data)-p)/(2*p) {
+		// every entry takes at least 2*p bytes: do not allocate what the value can not hold
+		return unmarshalErrorf("unmarshal map: unexpected eof")
 	}
 	rv.Set(reflect.MakeMapWithSize(t, n))
 	data = data[p:]
